@@ -2,6 +2,7 @@
 arguments under CPython and compare the outcomes (value or exception class)."""
 from __future__ import annotations
 
+import os
 import importlib
 import itertools
 import json
@@ -415,7 +416,7 @@ def c_quoter_candidates(seed_text=None):
     return out
 
 
-def search_c_quoter():
+def _search_c_quoter_here(progress=None):
     """first (configuration, text) on which the freshly built compiled quoter disagrees with the
     token-level specification (and with the pure-Python quoter)"""
     from contracts import spec_quote
@@ -427,9 +428,51 @@ def search_c_quoter():
         for text in c_quoter_candidates():
             if cfgs[name].get("requote", True) and spec_quote.surrogate_in_escape_window(text):
                 continue      # recorded known finding: reported separately, never searched for
+            if progress is not None:
+                progress(name, text)
             want = outcome(lambda t: spec_quote.q_spec(pyq, t), [text])
             got = outcome(cq, [text])
             if not agrees(got, want):
                 return {"quoter": name, "config": cfgs[name], "text": text}, {"real": show(got), "spec": show(want),
                                                                               "agrees": False, "in_pre": True}
     return None, None
+
+
+def search_c_quoter():
+    """the same search in a child process: a changed .pyx may be memory-unsafe, and the freshly
+    built extension must not be able to take the checker down with it.  A child that dies on a
+    signal is itself the replayed failure: the input it was working on is reported."""
+    import json as _json
+    import subprocess
+    import sys
+    root = os.path.dirname(os.path.dirname(os.path.abspath(__file__)))
+    try:
+        r = subprocess.run([sys.executable, "-m", "pyvc.replay", "--c-quoter-child"], cwd=root, capture_output=True,
+                           text=True, timeout=420)
+    except subprocess.TimeoutExpired:
+        return None, None
+    last = None
+    result = None
+    for line in r.stdout.splitlines():
+        if line.startswith("TRY "):
+            last = line[4:]
+        elif line.startswith("RESULT "):
+            result = _json.loads(line[7:])
+    if result is not None:
+        return (result[0], result[1]) if result[0] is not None else (None, None)
+    if r.returncode < 0 and last is not None:
+        name, text = _json.loads(last)
+        return ({"quoter": name, "text": text},
+                {"real": f"the compiled quoter (built from the current .pyx) died on signal {-r.returncode}",
+                 "spec": "a quoted string", "agrees": False, "in_pre": True})
+    return None, None
+
+
+if __name__ == "__main__":
+    import json as _json
+    import sys as _sys
+    if "--c-quoter-child" in _sys.argv:
+        def _progress(name, text):
+            print("TRY " + _json.dumps([name, text]), flush=True)
+        cand, j = _search_c_quoter_here(_progress)
+        print("RESULT " + _json.dumps([cand, j], default=repr), flush=True)
